@@ -219,7 +219,10 @@ def generate(rng, tier):
     if rng.random() < 0.5:
         ops.append({"op": "make_global"})
     return {"no_color": no_color, "init": init, "init_alias": init_alias, "components": comps, "ops": ops,
-            "conf_subclass": rng.random() < 0.1}
+            "conf_subclass": rng.random() < 0.1,
+            # the application route: cli_tools.std_app_configure(args, syntax_amends=<explicit configuration>) builds
+            # the configuration and makes it the global one
+            "via_app": rng.choice(["dict", "list1"]) if rng.random() < 0.12 else None}
 
 
 def simplify(trace):
@@ -585,7 +588,10 @@ def execute(trace, rng):
             w.stats["skipped_cyclic"] += 1
             raise _Skip()
         nc = w.no_color
-        M = w.sut("ColorsConfig(init)", w.conf_cls, real_init(trace), no_color=nc)
+        if trace.get("via_app"):
+            M = app_configured(w, trace, nc)
+        else:
+            M = w.sut("ColorsConfig(init)", w.conf_cls, real_init(trace), no_color=nc)
         regM = Registry()
         regM.deliver(flatten(real_init(trace) or {}))
         before = {sid: regM.is_resolved(sid) for sid in regM.items}
@@ -598,6 +604,10 @@ def execute(trace, rng):
         regG.deliver(w.default_builtin_flat)
         g_registered = []
         glabel = "O"
+        if trace.get("via_app"):
+            G, regG, g_registered, glabel = M, regM, w.used, "M"
+            w.stats["global_switch"] += 1
+            w.stats["app_configured"] = 1
         w.check_conf(M, regM, w.used, "M")
         for n, op in enumerate(trace["ops"]):
             k = op["op"]
@@ -737,7 +747,7 @@ def execute(trace, rng):
     st["ref_requests"] = rw.ref_requests()
     nontrivial = bool(w.stats["late_resolutions"] or w.stats["explicit_wins"])
     h = hashlib.blake2b(json.dumps([trace["init"], trace.get("init_alias"), trace.get("conf_subclass"),
-                                    trace["components"], trace["ops"], trace.get("no_color")],
+                                    trace["components"], trace["ops"], trace.get("no_color"), trace.get("via_app")],
                                    sort_keys=True).encode(), digest_size=8).hexdigest()
     status.update({"digest": log.digest(), "stats": st, "nontrivial": nontrivial, "case": h,
                    "sim_steps": len(trace["ops"])})
@@ -746,6 +756,22 @@ def execute(trace, rng):
 
 class _Skip(Exception):
     pass
+
+
+def app_configured(w, trace, nc):
+    """the explicit configuration installed the way an application does it: cli_tools.std_app_configure()"""
+    import types
+    from ak import cli_tools
+    amends = real_init(trace)
+    if trace["via_app"] == "list1":
+        amends = [] if amends is None else [amends]
+    args = types.SimpleNamespace(color="never" if nc else "always", _no_log=True, verbose=0)
+    kw = {"global_colors_config_class": w.conf_cls} if trace.get("conf_subclass") else {}
+    w.sut("std_app_configure", cli_tools.std_app_configure, args, syntax_amends=amends, **kw)
+    conf = w.color.get_global_colors_config()
+    if type(conf) is not w.conf_cls:
+        raise Violation("app", "global-config-of-another-class", f"{type(conf).__name__}")
+    return conf
 
 
 def canonical(delivered):
